@@ -290,6 +290,8 @@ var c14Tricky = []struct {
 	{"tl17", "func-lambda", `tl17 = x => { "say \"hi\"\nline two " + str(x) }`, []string{`tl17(1)`, `tl17(-3)`}},
 	{"tl18", "func-named", "func tl18(x) { s := \"a\\\"b\\nc\"; len(s) + x }", []string{`tl18(1)`, `tl18(0)`}},
 	{"tl19", "func-lambda", `tl19 = x => { x[1:] + x[2:] }`, []string{`tl19([1, 2, 3])`, `tl19("abcd")`}},
+	{"tl20", "func-lambda", `tl20 = x => { return x + 1 }`, []string{`tl20(1)`, `tl20(-1)`}},
+	{"tl21", "func-lambda", `tl21 = () => { return }`, []string{`tl21()`}},
 	{"tl16alias", "func-lambda", "func tl16(x) { x + 1 }\ntl16alias = tl16", []string{`tl16alias(3)`, `tl16alias(-1)`}},
 }
 
